@@ -126,7 +126,7 @@ struct Manifest {
   }
   std::string text() const {
     std::string t = "# generated\nrule cc\n  command = /sim/bin/cc $name -s $salt -- $in\n  description = CC $out\n";
-    t += "rule ccdep\n  command = /sim/bin/cc $name -s $salt -- $in\n  depfile = $out.d\n  deps = gcc\n";
+    t += "rule ccdep\n  command = /sim/bin/cc $name -s $salt -- $in\n  depfile = $dep\n  deps = gcc\n";
     t += "rule ccrestat\n  command = /sim/bin/cc $name -s $salt -- $in\n  restat = 1\n";
     t += "rule ccgen\n  command = /sim/bin/cc $name -s $salt -- $in\n  generator = 1\n";
     t += "pool p1\n  depth = 1\npool p2\n  depth = 2\n";
@@ -149,6 +149,7 @@ struct Manifest {
       if (!s.phony) {
         t += "  name = " + s.name + "\n  salt = " + std::to_string(s.salt) + "\n";
         if (s.pool) t += "  pool = p" + std::to_string(s.pool) + "\n";
+        if (s.depfile) t += "  dep = " + s.outs[0] + ".d\n";
       }
     }
     if (!defaults.empty()) {
@@ -200,6 +201,7 @@ struct Run {
   RunResult res;
   bool verdict = false;
   int restatKept = 0;
+  std::string predictionDump;
   int nullBuilds = 0, orderOnlyEdits = 0, failures = 0, manifestEdits = 0, skipped = 0;
 
   explicit Run(const Json& p) : plan(p) {}
@@ -218,7 +220,7 @@ struct Run {
     verdict = true;
     res.status = "viol";
     res.clause = clause;
-    res.detail = detail + "\n--- last events ---\n" + tail();
+    res.detail = detail + "\n--- model of this invocation ---\n" + predictionDump + "--- last events ---\n" + tail();
   }
   std::string abs(const std::string& p) const { return !p.empty() && p[0] == '/' ? p : std::string(kWork) + "/" + p; }
   FileState stateOf(const std::string& p) {
@@ -392,8 +394,10 @@ struct Run {
     reach(roots, &order);
     // ---- prediction.  N: certainly not, Y: certainly, M: either (not judged)
     enum Tri { N = 0, Y = 1, M = 2 };
+    predictionDump.clear();
     auto or3 = [](Tri a, Tri b) { return a == Y || b == Y ? Y : (a == M || b == M ? M : N); };
-    std::map<std::string, Tri> pRun, pFail, pChanged, pOwn;
+    std::map<std::string, Tri> pRun, pFail, pChanged, pValue, pOwn;   // pChanged: output files change; pValue: the stored result changes
+    std::map<std::string, Tri> pathChanged, pathValue;   // per output, where it differs from the statement's
     std::map<std::string, bool> ownFlagFail;
     int flagFailCandidates = 0;
     auto realProducers = [&](const std::string& path, std::vector<const Stmt*>* out, bool* viaPhony) {
@@ -422,11 +426,12 @@ struct Run {
         pRun[s->name] = N;
         pFail[s->name] = f;
         pChanged[s->name] = M;
+        pValue[s->name] = M;
         continue;
       }
       Rec* r = recs.count(s->name) ? &recs[s->name] : nullptr;
       int status = !useDb ? Rec::Never : r ? r->status : Rec::Never;
-      Tri upFail = N, upChanged = N, ordFail = N;
+      Tri upFail = N, upChanged = N, upValue = N, ordFail = N;
       bool missing = false, producerSetChanged = false;
       for (auto* lst : {&s->explicitIns, &s->implicitIns})
         for (auto& i : *lst) {
@@ -437,9 +442,11 @@ struct Run {
             // the value of a phony statement without a file behind it always propagates
             upFail = or3(upFail, pFail[p->name]);
             upChanged = or3(upChanged, M);
+            upValue = or3(upValue, M);
           } else {
             upFail = or3(upFail, pFail[p->name]);
-            upChanged = or3(upChanged, pChanged[p->name]);
+            upChanged = or3(upChanged, pathChanged.count(i) ? pathChanged[i] : pChanged[p->name]);
+            upValue = or3(upValue, pathValue.count(i) ? pathValue[i] : pValue[p->name]);
           }
           if (r && status != Rec::Never && r->produced.count(i) != (p ? 1u : 0u)) producerSetChanged = true;
         }
@@ -467,7 +474,7 @@ struct Run {
           if (!stateOf(o).exists) stateChanged = true;
         for (auto* lst : {&s->explicitIns, &s->implicitIns})
           for (auto& i : *lst)
-            if (!man.producer(i) && (!r->ins.count(i) || stateOf(i) != r->ins[i])) stateChanged = true;
+            if (!r->ins.count(i) || stateOf(i) != r->ins[i]) stateChanged = true;
         for (auto& d : r->discovered)
           if (!r->ins.count(d) || stateOf(d) != r->ins[d]) stateChanged = true;
       }
@@ -475,10 +482,12 @@ struct Run {
       if (status == Rec::Unknown) own = M;
       else if (status == Rec::Never || status == Rec::Invalid) own = s->generator ? (olderThanInputs() ? Y : N) : Y;
       else own = stateChanged ? Y : producerSetChanged ? M : N;
-      Tri run = or3(own, upChanged);
+      // a command with a depfile runs whenever its task does; any other one is brought up to date without running while its outputs
+      // are not older than its inputs
+      Tri run = or3(own, s->depfile ? or3(upChanged, upValue) : upChanged);
       if (s->generator && status != Rec::Ok && own == N && upChanged == M) run = M;
       pOwn[s->name] = own;
-      Tri fail = N, changed = N;
+      Tri fail = N, changed = N, value = N;
       if (missing || upFail == Y) {
         run = N;
         fail = Y;
@@ -486,6 +495,7 @@ struct Run {
         run = run == N ? N : M;
         fail = M;
         changed = M;
+        value = M;
       } else if (ordFail != N && run != N) {
         // the failure cancelled the build before this statement's turn
         if (ordFail == Y && run == Y) {
@@ -495,26 +505,38 @@ struct Run {
           run = M;
           fail = M;
           changed = M;
+          value = M;
         }
       } else if (failFlags.count(s->name)) {
         fail = run;
         changed = run;
+        value = run;
         ownFlagFail[s->name] = run != N;
         if (run != N) flagFailCandidates++;
       } else {
         changed = run;
-        if (run != N && s->restat && status == Rec::Ok && r && r->cmdline == s->commandLine()) {
-          bool kept = true;
+        value = status == Rec::Ok ? run : status == Rec::Unknown ? M : Y;
+        if (run != N && s->restat) {
+          // an output the tool leaves alone does not change for its consumers
           for (auto& o : s->outs) {
             std::string want, have;
-            if (!expected(o, &want) || !readSim(o, &have) || want != have) kept = false;
+            if (expected(o, &want) && readSim(o, &have) && want == have) {
+              pathChanged[o] = N;
+              // the stored result equals the one before if the command line did too; after a failed or skipped attempt it
+              // depends on which result each consumer saw last (a consumer outside the previous targets saw the old one)
+              pathValue[o] = status == Rec::Ok && r ? (r->cmdline == s->commandLine() ? N : value) : M;
+            }
           }
-          if (kept) changed = N;
         }
       }
+      static const char* tn[] = {"N", "Y", "M"};
+      predictionDump += "  " + s->name + ": status=" + std::to_string(status) + " own=" + tn[own] + " stateChanged=" + (stateChanged ? "1" : "0") + " upFile=" + tn[upChanged] +
+                        " upValue=" + tn[upValue] + " upFail=" + tn[upFail] + " ordFail=" + tn[ordFail] + " -> run=" + tn[run] + " fail=" + tn[fail] + " changed=" + tn[changed] +
+                        " value=" + tn[value] + "\n";
       pRun[s->name] = run;
       pFail[s->name] = fail;
       pChanged[s->name] = changed;
+      pValue[s->name] = value;
     }
     bool certainFailure = false, possibleFailure = false;
     for (const Stmt* s : order) {
@@ -659,6 +681,8 @@ struct Run {
       std::string kind = op.gets("op");
       if (kind == "build") opBuild(op);
       else if (kind == "edit") {
+        // an edit of an existing source; a file appearing where an #include found nothing is not an edit
+        if (!stateOf(op.gets("path")).exists) continue;
         simfs::fs().writeFile(abs(op.gets("path")), util::unhex(op.gets("content")));
         ev("edit " + op.gets("path"));
       } else if (kind == "delete") {
